@@ -27,6 +27,7 @@ class ApiInterp:
     def __init__(self, cid: str, inst, state) -> None:
         self.cid = cid
         self.active: set = set()
+        self.both_regs: dict = {}
         self.inst = inst
         self.gen = inst["gen"]
         self.state = copy.deepcopy(state)
@@ -243,9 +244,12 @@ class ApiInterp:
         return {"kind": "none"}
 
     def op_subscribe(self, scope, ident, slot, twice=False, raising=False):
-        cb = self._callable(scope, ident, slot)
+        # scopes "both_ac" / "both_acstate": ONE callable registered through AirConditioner.subscribe and / or
+        # AirConditioner.subscribe_ac_state of the same unit (key ("both", ident, slot))
+        ckey = ("both", ident, slot) if scope.startswith("both_") else (scope, ident, slot)
+        cb = self._callable(*ckey)
         if raising:
-            self.raising.add((scope, ident, slot))
+            self.raising.add(ckey)
             self.nt.add("raising-subscriber")
         obj, sub, _unsub = self._target(scope, ident)
         if obj is None:
@@ -254,27 +258,41 @@ class ApiInterp:
         if twice:
             sub(cb)
             self.nt.add("subscribe-twice")
-        self.active.add((scope, ident, slot))
+        if scope.startswith("both_"):
+            regs = self.both_regs.setdefault((ident, slot), set())
+            regs.add(scope[5:])
+            if len(regs) == 2:
+                self.nt.add("same-callable-both-ways")
+        self.active.add(ckey)
         return None
 
     def op_unsubscribe(self, scope, ident, slot):
-        cb = self._callable(scope, ident, slot)
+        ckey = ("both", ident, slot) if scope.startswith("both_") else (scope, ident, slot)
+        cb = self._callable(*ckey)
         obj, _sub, unsub = self._target(scope, ident)
         if obj is None:
             return None
         unsub(cb)
-        if (scope, ident, slot) in self.active:
+        if scope.startswith("both_"):
+            regs = self.both_regs.setdefault((ident, slot), set())
+            if scope[5:] in regs:
+                self.nt.add("unsubscribe")
+            regs.discard(scope[5:])
+            if not regs:
+                self.active.discard(ckey)
+            return None
+        if ckey in self.active:
             self.nt.add("unsubscribe")
-        self.active.discard((scope, ident, slot))
+        self.active.discard(ckey)
         return None
 
     def _target(self, scope, ident):
         if scope == "at":
             return self.at, self.at.subscribe, self.at.unsubscribe
-        if scope == "ac":
+        if scope in ("ac", "both_ac"):
             ac = self.acs.get(ident)
             return (ac, ac.subscribe, ac.unsubscribe) if ac else (None, None, None)
-        if scope == "acstate":
+        if scope in ("acstate", "both_acstate"):
             ac = self.acs.get(ident)
             return (ac, ac.subscribe_ac_state, ac.unsubscribe_ac_state) if ac else (None, None, None)
         z = self.zones.get(ident)
@@ -302,6 +320,10 @@ class ApiInterp:
 
         for key in sorted(self.active):
             scope, ident, slot = key
+            if scope == "both":
+                # one callable, registered as a general subscriber and / or as an AC-state subscriber: it hears what
+                # the wider of its live registrations hears, once per change
+                scope = "ac" if "ac" in self.both_regs[(ident, slot)] else "acstate"
             got = counts.get(key, 0)
             lo = hi = 0
             kind = bounds["kind"]
